@@ -150,7 +150,11 @@ fn gen_case(r: &mut Rng, root: &str) -> Case {
                         let cut = 1 + r.usize_below(stdin.len() - 1);
                         stdin.truncate(cut);
                     }
-                    format!("cat > $'{t}' && test \"$(wc -c < $'{t}')\" -eq {n} && xargs -0 rm -f -- < $'{t}'; rm -f -- $'{t}'")
+                    if r.coin() {
+                        format!("cat > $'{t}' && test \"$(wc -c < $'{t}')\" -eq {n} && xargs -0 rm -f -- < $'{t}'; rm -f -- $'{t}'")
+                    } else {
+                        format!("{{ cat > $'{t}' && test \"$(wc -c < $'{t}')\" -eq {n} && xargs -0 rm -f -- < $'{t}' && rm -f -- $'{t}'; }} || {{ rm -f -- $'{t}'; false; }}")
+                    }
                 }
             }
         }
